@@ -111,6 +111,59 @@ impl Ord for B3 {
     }
 }
 
+/// A move-only element WITHOUT drop glue (`mem::needs_drop::<Tok>()` is false): it cannot be dropped twice, but it can
+/// still be *duplicated* - two owners of one value, which for `&mut U` or a linear token is unsound.  Identity = serial
+/// (unique per object, clones get a fresh one), so duplicates are observable although nothing is recorded on drop.
+pub struct Tok {
+    pub serial: u64,
+    pub origin: u32,
+}
+static TOK_SERIAL: std::sync::atomic::AtomicU64 = std::sync::atomic::AtomicU64::new(1);
+impl Tok {
+    pub fn new(origin: u32) -> Tok {
+        Tok { serial: TOK_SERIAL.fetch_add(1, std::sync::atomic::Ordering::Relaxed), origin }
+    }
+}
+impl Clone for Tok {
+    fn clone(&self) -> Tok {
+        fault::tick(Site::Clone);
+        Tok::new(self.origin)
+    }
+}
+impl Default for Tok {
+    fn default() -> Tok {
+        fault::tick(Site::Default);
+        Tok::new(0)
+    }
+}
+impl PartialEq for Tok {
+    fn eq(&self, o: &Tok) -> bool {
+        self.origin == o.origin
+    }
+}
+impl Eq for Tok {}
+impl std::hash::Hash for Tok {
+    fn hash<H: std::hash::Hasher>(&self, h: &mut H) {
+        self.origin.hash(h)
+    }
+}
+impl PartialOrd for Tok {
+    fn partial_cmp(&self, o: &Tok) -> Option<Ordering> {
+        Some(self.cmp(o))
+    }
+}
+impl Ord for Tok {
+    fn cmp(&self, o: &Tok) -> Ordering {
+        fault::tick(Site::Cmp);
+        (self.origin % 3).cmp(&(o.origin % 3))
+    }
+}
+impl std::fmt::Debug for Tok {
+    fn fmt(&self, f: &mut std::fmt::Formatter<'_>) -> std::fmt::Result {
+        write!(f, "T{}#{}", self.origin, self.serial)
+    }
+}
+
 pub struct Zst;
 impl Zst {
     pub fn new() -> Zst {
@@ -160,6 +213,8 @@ pub trait CellT: Sized + Clone + Default + Ord + 'static {
     const HAS_VALUE: bool = true;
     /// the type has identity tracked in the ledger
     const TRACKED: bool = false;
+    /// `serial()` identifies the object (two cells with one serial = one element owned twice)
+    const HAS_SERIAL: bool = false;
     fn make(origin: u32) -> Self;
     fn origin(&self) -> u32;
     fn serial(&self) -> u64 {
@@ -183,9 +238,24 @@ pub trait CellT: Sized + Clone + Default + Ord + 'static {
     }
 }
 
+impl CellT for Tok {
+    const KIND: &'static str = "tok";
+    const HAS_SERIAL: bool = true;
+    fn make(origin: u32) -> Tok {
+        Tok::new(origin)
+    }
+    fn origin(&self) -> u32 {
+        self.origin
+    }
+    fn serial(&self) -> u64 {
+        self.serial
+    }
+}
+
 impl CellT for Elem {
     const KIND: &'static str = "elem";
     const TRACKED: bool = true;
+    const HAS_SERIAL: bool = true;
     fn make(origin: u32) -> Elem {
         Elem::new(origin)
     }
